@@ -301,7 +301,7 @@ func (ns *Namespace) AddAlias(aliasType string, aliasName string, alias string) 
 	if aliasType == "const" {
 		ns.Aliases[aliasType][alias] = aliasName
 	} else {
-		ns.Aliases[aliasType][strings.ToLower(alias)] = aliasName
+		ns.Aliases[aliasType][asciiLower(alias)] = aliasName
 	}
 }
 
@@ -320,14 +320,14 @@ func (ns *Namespace) ResolveName(nameNode ast.Vertex, aliasType string) (string,
 
 	case *ast.Name:
 		if aliasType == "const" && len(n.Parts) == 1 {
-			part := strings.ToLower(string(n.Parts[0].(*ast.NamePart).Value))
+			part := asciiLower(string(n.Parts[0].(*ast.NamePart).Value))
 			if part == "true" || part == "false" || part == "null" {
 				return part, nil
 			}
 		}
 
 		if aliasType == "" && len(n.Parts) == 1 {
-			part := strings.ToLower(string(n.Parts[0].(*ast.NamePart).Value))
+			part := asciiLower(string(n.Parts[0].(*ast.NamePart).Value))
 
 			switch part {
 			case "self":
@@ -381,11 +381,11 @@ func (ns *Namespace) ResolveAlias(nameNode ast.Vertex, aliasType string) (string
 	firstPartStr := string(nameParts[0].(*ast.NamePart).Value)
 
 	if len(nameParts) > 1 { // resolve aliases for qualified names, always against class alias type
-		firstPartStr = strings.ToLower(firstPartStr)
+		firstPartStr = asciiLower(firstPartStr)
 		aliasType = ""
 	} else {
 		if aliasType != "const" { // constants are case-sensitive
-			firstPartStr = strings.ToLower(firstPartStr)
+			firstPartStr = asciiLower(firstPartStr)
 		}
 	}
 
@@ -411,4 +411,19 @@ func concatNameParts(parts ...[]ast.Vertex) string {
 	}
 
 	return str
+}
+
+// asciiLower folds A-Z only, as PHP does for class and function names: bytes
+// >= 0x80 (identifiers may contain them) are compared as written, so "Äbc" is
+// not an alias for "äbc". strings.ToLower would fold them by Unicode rules and
+// turn every invalid UTF-8 byte into U+FFFD.
+func asciiLower(s string) string {
+	b := []byte(s)
+	for i, c := range b {
+		if c >= 'A' && c <= 'Z' {
+			b[i] = c + 'a' - 'A'
+		}
+	}
+
+	return string(b)
 }
